@@ -511,6 +511,14 @@ where
     let state = ParserState::new(input);
 
     match f(state) {
+        // A refused call may have been absorbed by `repeat`, `optional` or a negative
+        // lookahead: the tokens gathered after the limit was hit are not a parse result.
+        Ok(state) if state.reached_call_limit() => Err(Error::new_from_pos(
+            ErrorVariant::CustomError {
+                message: "call limit reached".to_owned(),
+            },
+            Position::new_internal(input, state.attempt_pos),
+        )),
         Ok(state) => {
             let len = state.queue.len();
             Ok(new(Rc::new(state.queue), input, None, 0, len))
